@@ -392,6 +392,10 @@ def _decorate(obj, plan, kind):
         o.descriptors['scalar0'] = 0                          # ... and so are zero, False and an all-zero vector
         o.descriptors['flag'] = False
         o.descriptors['zeros'] = np.zeros(3)
+    if 'longdouble' in dec:
+        # unsigned 64-bit identifiers above 2**63 keep their value
+        per_col['u64'] = np.array([2 ** 63 + 5 + 3 * i for i in range(n_col)], dtype=np.uint64)
+        o.descriptors['u64mat'] = np.array([[2 ** 64 - 1, 2 ** 63], [7, 2 ** 63 + 11]], dtype=np.uint64)
     if 'longdouble' in dec and np.finfo(np.longdouble).nmant > 52:
         # extended-precision arrays keep their extra bits (where the platform has them)
         per_col['ld'] = np.array([np.longdouble(1) + np.longdouble(2) ** -60 * (i + 1) for i in range(n_col)], dtype=np.longdouble)
